@@ -275,14 +275,21 @@ fn kd10_set_header() {
 pub(crate) fn stub_adler_ident(start: u32, data: &[u8]) -> u32 {
     start ^ (data.len() as u32).wrapping_mul(0x9e37_79b1) ^ (data.as_ptr() as usize as u32).wrapping_mul(0x85eb_ca6b)
 }
-/// contract stub: the window loader consumes all the input it is given (window contents are KD9's subject)
+/// contract stub: the window loader moves all the input it is given into the look-ahead (window contents are KD9's subject)
 pub(crate) fn stub_fill_window_consume(stream: &mut DeflateStream) {
     // caller-side preconditions of the real fill_window (it computes `strstart - insert` and asserts the look-ahead bound)
     assert!(stream.state.insert <= stream.state.strstart, "fill_window: `insert` counts bytes that lie before `strstart`");
     assert!(stream.state.lookahead < MIN_LOOKAHEAD);
+    stream.state.lookahead += stream.avail_in as usize;
     stream.next_in = stream.next_in.wrapping_add(stream.avail_in as usize);
     stream.avail_in = 0;
-    stream.state.lookahead = 0;
+}
+/// contract stub: hash insertion (KD9 / the match finders' subject) — only its precondition is kept
+pub(crate) fn stub_insert_string_nop<'a>(state: &mut State<'a>, string: usize, count: usize)
+where
+    'a: 'a,
+{
+    assert!(string + count <= state.strstart + state.lookahead, "insert_string: positions inside the data");
 }
 
 /// deflateSetDictionary: state checks, DICTID = checksum of the *whole* dictionary the caller passed (also when it is
@@ -295,6 +302,7 @@ pub(crate) fn stub_fill_window_consume(stream: &mut DeflateStream) {
 #[kani::stub(<[u16]>::fill, stub_fill_zero)]
 #[kani::stub(crate::adler32::adler32, stub_adler_ident)]
 #[kani::stub(crate::deflate::fill_window, stub_fill_window_consume)]
+#[kani::stub(crate::deflate::State::insert_string, stub_insert_string_nop)]
 fn kd10_set_dictionary_protocol() {
     let mut w = [0u8; 2 << WB];
     let mut p = [0u16; 1 << WB];
@@ -338,8 +346,9 @@ fn kd10_set_dictionary_protocol() {
             assert!(stream.adler == 1);
         }
         assert!(stream.state.wrap == wrap, "wrap restored");
-        assert!(stream.state.lookahead == 0 && stream.state.insert == 0 && !stream.state.match_available);
-        assert!(stream.state.block_start == stream.state.strstart as isize);
+        assert!(stream.state.lookahead == 0 && !stream.state.match_available);
+        assert!(stream.state.insert <= 2 && stream.state.insert <= stream.state.strstart);
+        assert!(stream.state.block_start == stream.state.strstart as isize, "the first block starts after the dictionary: none of its bytes is data");
     }
     assert!(stream.next_in as usize == user_in.as_ptr() as usize && stream.avail_in == 3, "caller's input cursor restored");
     kani::cover!(rc == ReturnCode::Ok && wrap == 1 && dl == 1100);
